@@ -2,7 +2,7 @@
    ever delivered.  This file only states the theorems and closes them with the
    lemmas of C03_proofs.v; see DESIGN.md section 5 (C03). *)
 From TV.Lib Require Import Base.
-From TV.Link Require Import Gen Model Facts Topo_proofs C03_proofs C08_proofs C14_proofs C03_flow.
+From TV.Link Require Import Gen Model Facts Topo_proofs Topo_run C03_proofs C03_topo C08_proofs C14_proofs C03_flow.
 Open Scope N_scope.
 
 (* A message sent while its direction is explicitly partitioned is in no
@@ -84,6 +84,36 @@ Theorem c03_flows_again : forall d g es1 id x p es2,
   In id (seq_d d (outs r) (fin r)).
 Proof. exact c03_flows_again_lemma. Qed.
 
+(* The whole topology, any number of hosts and any history: the link of every
+   pair q after the history is the single-link run of the history projected on
+   q (its sends, the ticks, the drains of its endpoints, its link calls, the
+   global latency changes), and the global latency agrees.  So every
+   single-link theorem of C03 / C08 / C14 is a theorem about `Topology`. *)
+Theorem c03_topology_projects : forall es t q l,
+  get_link q (tlinks t) = Some l ->
+  get_link q (tlinks (tstate t es)) = Some (fin (run (tg t) l (proj q es))) /\
+  tg (tstate t es) = gfin (run (tg t) l (proj q es)).
+Proof. exact topo_projects_lemma. Qed.
+
+(* ... and the headline statement on the topology itself: on a topology whose
+   hosts were registered at time 0, a message sent from src to dst while the
+   projected history of that pair has the direction explicitly partitioned is
+   handed to NO host, ever -- whatever happens on this and on all other links
+   afterwards.  (touts = everything any host receives along the history.) *)
+Theorem c03_topology_never_delivered : forall t es1 src dst id x r p es2,
+  let q := pair_of src dst in
+  let d := dir_of src dst in
+  fresh_topo t -> Forall no_reg (es1 ++ TSend src dst id x r p :: es2) ->
+  Forall c03_alphabet (proj q es1) -> explicit (proj q es1) d = true ->
+  ~ In id (tsend_ids es1) -> ~ In id (tsend_ids es2) ->
+  ~ In id (touts t (es1 ++ TSend src dst id x r p :: es2)).
+Proof. exact c03_topology_never_delivered_lemma. Qed.
+
+(* No host is ever handed an id that was not put on the network. *)
+Theorem c03_topology_only_sent : forall t es x,
+  fresh_topo t -> Forall no_reg es -> In x (touts t es) -> In x (tsend_ids es).
+Proof. exact touts_only_sent_lemma. Qed.
+
 (* Structural tie to the source (Gen.v is re-read from top.rs on every run): the
    Rust enums `State` and `DeliveryStatus` have exactly the variants the model's
    inductives `lstate` and `status` have, in the same order.  A new or renamed
@@ -119,6 +149,27 @@ Proof.
   split; [repeat constructor|]. split; [reflexivity|]. split; vm_compute; intuition discriminate.
 Qed.
 
+(* Non-vacuity of the topology statements: three hosts registered at time 0
+   give a fresh topology; a partitioned send reaches nobody while the same
+   history without the partition delivers it to host 2. *)
+Definition t3 := tstate (tinit g0) [TRegister 1; TRegister 2; TRegister 3].
+Definition th1 := [TSend 1 3 7 0 false false; TLink 2 1 Partition].
+Definition th2 := [TLink 1 2 Repair; TTick ms; TDrain 1; TDrain 2; TDrain 3].
+Example c03_topology_nonvacuous :
+  fresh_topo t3 /\
+  Forall no_reg (th1 ++ TSend 1 2 8 0 false false :: th2) /\
+  Forall c03_alphabet (proj (pair_of 1 2) th1) /\ explicit (proj (pair_of 1 2) th1) (dir_of 1 2) = true /\
+  touts t3 (th1 ++ TSend 1 2 8 0 false false :: th2) = [7] /\
+  touts t3 ([TSend 1 3 7 0 false false] ++ TSend 1 2 8 0 false false :: th2) = [8; 7].
+Proof.
+  split.
+  { split; [vm_compute; repeat constructor; cbn; intuition discriminate|].
+    intros q l. unfold t3. cbn [tstate tstep tinit fst thosts tlinks app map tnow].
+    cbn [get_link]. repeat (destruct (pair_eqb q _); [intros H; inversion H; reflexivity|]). discriminate. }
+  split; [repeat constructor|]. split; [vm_compute; repeat constructor|].
+  split; [reflexivity|]. split; reflexivity.
+Qed.
+
 Check c03_never_delivered : forall g es1 d id x r p es2,
   Forall c03_alphabet es1 -> explicit es1 d = true ->
   ~ In id (send_ids es1) -> ~ In id (send_ids es2) ->
@@ -130,6 +181,10 @@ Print Assumptions c03_state_invariant.
 Print Assumptions c03_reverse_untouched.
 Print Assumptions c03_other_links_untouched.
 Print Assumptions c03_topology_refines_link.
+Print Assumptions c03_topology_projects.
+Print Assumptions c03_topology_never_delivered.
+Print Assumptions c03_topology_only_sent.
+Print Assumptions c03_topology_nonvacuous.
 Print Assumptions c03_flows_again.
 Print Assumptions c03_model_matches_enums.
 Print Assumptions c03_nonvacuous.
